@@ -18,6 +18,7 @@
   bookkeeping after reading some runes, the number of newline runes among them; `Gap` — white space
   and whole comments; `runForms` — top-level forms fed one by one to `EVAL`.
 -/
+import LispModel.Proofs.LispErrorLaws
 import LispModel.Proofs.PositionLaws
 import LispModel.Proofs.Positions
 import LispModel.Proofs.LayoutFull
@@ -359,5 +360,19 @@ theorem position_methods_panic_exactly_on_nil (p h : Cur) :
 open LispModel.Position in
 example : includes (some { beginRow := 1, beginCol := 2, row := 3, col := 9 }) { beginRow := 2, beginCol := 1, row := 2, col := 30 } = true ∧
     includes (some { beginRow := 2, beginCol := 1, row := 2, col := 30 }) { beginRow := 1, beginCol := 2, row := 3, col := 9 } = false := by decide
+
+
+open LispModel.LispError in
+/-- `NewLispError` folded over the forms an error passes on its way out: the position that sticks is the FIRST one
+    available — the error's own, else that of the innermost positioned form (model LispModel/LispError.lean) -/
+theorem error_object_first_position_wins {cs : List Carrier} {e r : E} (h : reposAll e cs = .ok r) :
+    position r = firstSome (position e :: cs.map posOf) := newLispError_first_position_wins h
+
+open LispModel.LispError in
+/-- `GetPosition` answers for every kind of carrier except a typed nil `*Token` (never passed by the code: the reader
+    passes `**Token`, which is "anything else") -/
+theorem get_position_total (c : Carrier) (h : c ≠ .tokenPtr none) :
+    LispError.getPosition c = Outcome.ok (LispError.posOf c) :=
+  getPosition_total c h
 
 end LispModel.Props.C17
